@@ -495,6 +495,12 @@ func (s *Server) handleSession(clientMAC net.HardwareAddr, data []byte) {
 		return
 	}
 
+	// The PPPoE payload holds at least the 2-byte PPP protocol number and must lie
+	// inside the received frame (the length field comes from the wire).
+	if hdr.Length < 2 || int(hdr.Length) > len(data)-6 {
+		return
+	}
+
 	session := s.sessions.GetSession(hdr.SessionID)
 	if session == nil {
 		return
